@@ -69,8 +69,6 @@ def cimap (j : Json) : Except String Json := do
              ("spec", arr (snapSpec pr m Json.null :: runSpec pr m ops))])
 
 /-! set -/
-inductive SOp | add (k : Str) | discard (k : Str) | remove (k : Str) | contains (k : Str) | canonical (k : Str) | lower
-
 def parseSOp (j : Json) : Except String SOp := do
   let o ← (← j.getObjVal? "o").getStr?
   match o with
@@ -82,21 +80,14 @@ def parseSOp (j : Json) : Except String SOp := do
   | "lower" => pure .lower
   | _ => throw s!"unknown ciset op {o}"
 
-def sstep (s : CISet) : SOp → CISet × Json
-  | .add k => (s.add k, Json.null)
-  | .discard k => (s.discard k, Json.null)
-  | .remove k => let r := s.remove k; (r.1, if r.2 then Json.null else Json.str "KeyError")
-  | .contains k => (s, Json.bool (s.contains k))
-  | .canonical k => (s, match s.canonical k with | some x => strToJson x | none => Json.str "KeyError")
-  | .lower => (s.lowered, Json.null)
+def sresJ : SRes → Json
+  | .unit => Json.null
+  | .keyError => Json.str "KeyError"
+  | .bool b => Json.bool b
+  | .str s => strToJson s
 
-def sstepSpec (s : OSet) : SOp → OSet × Json
-  | .add k => (s.add k, Json.null)
-  | .discard k => (s.discard k, Json.null)
-  | .remove k => if s.has k then (s.discard k, Json.null) else (s, Json.str "KeyError")
-  | .contains k => (s, Json.bool (s.has k))
-  | .canonical k => (s, match s.canonical k with | some x => strToJson x | none => Json.str "KeyError")
-  | .lower => (s.lowered, Json.null)
+def sstep (s : CISet) (op : SOp) : CISet × Json := let r := s.step op; (r.1, sresJ r.2)
+def sstepSpec (s : OSet) (op : SOp) : OSet × Json := let r := s.step op; (r.1, sresJ r.2)
 
 def ssnap (pr : List Str) (s : CISet) (r : Json) : Json :=
   obj [("res", r), ("iter", strs s.iter), ("spellings", strs s.spellings), ("len", nat s.len),
